@@ -115,6 +115,11 @@ def c07_cases(quick, seed):
             add(b"cmd", list(t))
     for _ in range(500 if quick else 10000):
         add(rng.choice([b"cmd", b"x"]), [arg() for _ in range(rng.randint(1, 4))])
+    # typed arguments that render themselves (mpd_client's Tag): a hand-built catch-all tag may hold a line feed
+    for ty in ("tag", "tagref"):
+        for v in (b"Artist", b"a\nb", b"\nkill", b"x\n", b"a\x00b", b"Artist\ncommand_list_end", b"\n"):
+            add(b"tagtypes", [{"ty": "str", "v": list(b"enable")}, {"ty": ty, "v": list(v)}])
+            add(b"cmd", [{"ty": ty, "v": list(v)}, {"ty": "str", "v": [97]}])
     # raw renderer with arbitrary bytes
     for _ in range(200 if quick else 4000):
         v = [rng.choice([10, 0, 34, 92, 32, 97, 255, 13]) for _ in range(rng.randint(0, 6))]
@@ -210,4 +215,24 @@ def c11_cases(quick, seed):
         add({"k": "and", "es": [{"k": "not", "e": {"k": "and", "es": [l1, l2]}}, l3]})
     for _ in range(1500 if quick else 30000):
         add(rand_tree(rng, vals, 3))
+
+    # a filter (or a part of it) that was already rendered or cloned once and is then negated / combined further
+    def mark(t):
+        if rng.random() < 0.5:
+            t["pre"] = rng.choice(["render", "clone", "clone_after"])
+        for e in ([t["e"]] if t["k"] == "not" else t.get("es", [])):
+            mark(e)
+        return t
+
+    for v in small[:4]:
+        l1, l2 = leaf(rng, v, 0), leaf(rng, [97], 2)
+        for pre in ("render", "clone", "clone_after"):
+            add({"k": "not", "bang": False, "e": dict(l1, pre=pre)})
+            add({"k": "not", "bang": True, "e": dict(l1, pre=pre)})
+            add({"k": "and", "es": [dict(l1, pre=pre), l2]})
+            add({"k": "and", "es": [l2, dict(l1, pre=pre)]})
+            add({"k": "not", "e": {"k": "and", "pre": pre, "es": [l1, l2]}})
+            add({"k": "and", "es": [{"k": "and", "pre": pre, "es": [l1, l2]}, l2]})
+    for _ in range(400 if quick else 8000):
+        add(mark(rand_tree(rng, vals, 3)))
     return cases
